@@ -71,6 +71,8 @@ func runC07(r *Run, p *Prog) {
 			r.Ob("G3", pb.Fn, fmt.Sprintf("template structure problem #%d", i+1), pb.Pos, false, pb.Msg)
 		}
 		r.Ob("G3", root, "the template ends in code mode", w.funcs[root].Pos(), end.m == lmCode, "the output ends inside a "+lexModeName[end.m])
+		r.Ob("G3", root, "the emitted parentheses, brackets and braces are balanced on every path through the template", w.funcs[root].Pos(), end.par == 0 && end.brk == 0 && end.brc == 0,
+			"the template ends at "+end.desc()+": some path emits an opening ( [ { without its closing counterpart (or the reverse) - the output does not parse")
 		r.Floor("G3", 20)
 	})
 	// ---- G2
@@ -275,6 +277,8 @@ func runC07(r *Run, p *Prog) {
 				"the name "+d.what+" can contain '_' inside: for an interface name whose last word is `test`, a GOOS or a GOARCH the file is *_test.go or *_<GOOS/GOARCH>.go, which go build ignores or excludes - the emitted file does not build as a package")
 		}
 	})
+	// ---- G10: identifiers of the emitted code (gentokens.go)
+	r.Guard("G10", func() { emittedIdentifierRules(r, w, root) })
 	// ---- G9: a composite literal of a type declared from the description (`&<ErrorName>{}`) type-checks only if that
 	// type is declared as a struct: an enum-typed error is declared `type X string`. The template may emit such a
 	// literal only under a test that the described type is a struct.
